@@ -98,6 +98,7 @@ structure AProg where
   name : String
   inherits : List AInh
   fns : List AFn
+  hasW : Bool := false      -- declares `private int w;` besides the variable of its own level
   deriving Repr
 
 abbrev AGraph := List AProg
@@ -107,17 +108,18 @@ def AGraph.indexOf (g : AGraph) (name : String) : Nat := (g.findIdx? (·.name ==
 def AGraph.toS (g : AGraph) : List (SProg String) :=
   g.map (fun P => { defs := (P.fns.filter (·.isDef)).map (·.name), inherits := P.inherits.map (fun i => g.indexOf i.parent) })
 
-/-- number of variables of an object of program p (every generated program declares exactly one) -/
+/-- number of variables of an object of program p (every generated program declares one variable of its own level,
+    some a second, private one that has the same name `w` at every level) -/
 def size (g : AGraph) : Nat → Nat → Nat
   | 0, _ => 0
   | fuel + 1, p =>
     match g[p]? with
     | none => 0
-    | some P => (P.inherits.map (fun i => size g fuel (g.indexOf i.parent))).sum + 1
+    | some P => (P.inherits.map (fun i => size g fuel (g.indexOf i.parent))).sum + (if P.hasW then 2 else 1)
 
 /-- index of the variable that the code of the program reached by `path` from p uses -/
 def varIndex (g : AGraph) : Nat → List Nat → Nat
-  | p, [] => size g (g.length + 1) p - 1
+  | p, [] => size g (g.length + 1) p - (if ((g[p]?).map (·.hasW)).getD false then 2 else 1)
   | p, k :: rest =>
     match g[p]? with
     | none => 0
@@ -188,6 +190,7 @@ def runFn (g : AGraph) (T : Nat) : Nat → List Nat → String → List Int → 
       let vi := varIndex g T path
       let evs := Ev.run P.name fn (vars.getD vi 0) :: evs
       let vars := vars.set vi (codeOf P.name fn)
+      let vars := if P.hasW then vars.set (vi + 1) (codeOf P.name fn + 5000) else vars
       f.calls.foldl (fun (r : Run) c =>
         if !r.ok then r else
         let target : Option (List Nat × String) :=
